@@ -28,6 +28,8 @@ FIRST = {
     "C02/7": "missed", "C03/8": "missed", "C11/7": "missed", "C12/7": "missed", "C13/7": "missed", "C15/7": "missed",
     # round 9 (8 changes, 2 missed)
     "C07/8": "missed", "C19/8": "missed",
+    # round 10 (11 changes, 8 missed; 4 of them closed, 4 left open for lack of time)
+    "C01/8": "missed", "C02/8": "missed", "C03/9": "missed", "C05/8": "missed", "C10/8": "missed", "C12/8": "missed", "C14/9": "missed", "C17/8": "missed",
 }
 
 
